@@ -386,7 +386,7 @@ class Runner:
         if vacuity: ctext.append('/*ENS:VACUITY*/ __CPROVER_ensures(0)')
         contracts = {fcn: '\n'.join(ctext)}
         loopc = {(fcn, k): b.for_contract(v) if False else v for k, v in check.loops.items()}
-        ptypes = [t.to for t, _ in f.params if isinstance(t, Ptr) and not isinstance(t.to, (Void, Fn_t))] + [f.ret] + stub_types
+        ptypes = [t.to for t, _ in f.params if isinstance(t, Ptr) and not isinstance(t.to, (Void, Fn_t)) and not (isinstance(t.to, (Named, Lit)) and getattr(gen.dl.body(t.to), 'opaque', False))] + [f.ret] + stub_types
         gen.contracts = {} if native else contracts
         gen.loopc = {} if native else loopc
         if native:
@@ -413,7 +413,8 @@ class Runner:
         for (name, (t, irn)) in zip(check.params, f.params):
             if name in check.decl:
                 decls.append(check.decl[name]); continue
-            if isinstance(t, Ptr) and not isinstance(t.to, (Void, Fn_t)):
+            opaque = isinstance(t, Ptr) and isinstance(t.to, (Named, Lit)) and getattr(gen.dl.body(t.to), 'opaque', False)
+            if isinstance(t, Ptr) and not isinstance(t.to, (Void, Fn_t)) and not opaque:
                 ctype = gen.ct(t.to); gen.need(t.to)
                 decls.append('%s; %s = &%s_obj;' % (gen.ct(t.to, name + '_obj'), gen.ct(t, name), name))
                 inits.append(('%s_obj' % name, ctype))
